@@ -1280,6 +1280,10 @@ int Interpret::interpPipe() {
             }
         }
     }
+    if (par > 0 and not f_exit) {
+        // the input ended inside a command: file mode reports a syntax error for the same text
+        notify_formatted(true, "pipe reader: unexpected end of input inside a command");
+    }
     free(buf);
     return 0;
 }
